@@ -1,5 +1,6 @@
 import MtailVerif.Proofs.Runtime
 import MtailVerif.Generated.Runtime
+import MtailVerif.Proofs.Skeletons
 /-! # C25 — Self-monitoring counters are exact (program-loader part)
 
     Each call of `compileAndRun` is exactly one of: no-op (unchanged content), a load, or a load
@@ -126,5 +127,12 @@ theorem runtime_error_counted (key : Bytes) (m : Bool) (r : RT) (h : Bytes × Ha
   split
   · simp [count_bump_self]
   · rw [(foldDecl_counts h.1 key m _ r).2]; simp
+
+/-! ### regenerated control skeletons (written by lib/wire_skeletons.py) -/
+/-- Obligations over regenerated facts: the functions this property's model stands for have the
+    control skeleton the model was written against (`Proofs/Skeletons.lean`, one `rfl` per function
+    or clause; DESIGN.md §11.6a) -/
+theorem loader_skeletons : Skeletons.LoaderShape := Skeletons.loader_shape
+theorem exec_skeletons : Skeletons.ExecShape := Skeletons.exec_shape
 
 end MtailVerif.C25
